@@ -5,7 +5,7 @@
    Conventions of the model (Model/C04_Dens.v): a parameter is a list of length 1 (scalar, broadcast by
    `bc n`) or n; `fixed` selects the repaired (true) or the unrepaired (false) formula of the defects
    that have a fix proposal; lnGamma enters through its value G = Gamma(shape) > 0. *)
-From CV Require Import Base.Tac Base.Cmp Model.C04_Dens Model.C04_Cdf Proofs.C04_Cdf Proofs.C04_Cdf2 Proofs.C04_Lim Proofs.C04_Dens Proofs.C04_Gauss Proofs.C04_Norm Proofs.C04_More Proofs.C04_Sym.
+From CV Require Import Base.Tac Base.Cmp Model.C04_Dens Model.C04_Cdf Proofs.C04_Cdf Proofs.C04_Cdf2 Proofs.C04_Beta Proofs.C04_Lim Proofs.C04_InvGamma Proofs.C04_Refine Proofs.C04_GammaLaw Proofs.C04_Dens Proofs.C04_Gauss Proofs.C04_Norm Proofs.C04_More Proofs.C04_Sym.
 From Coq Require Import QArith Reals Lra.
 From Coquelicot Require Import Coquelicot.
 Local Open Scope R_scope.
@@ -168,10 +168,29 @@ Theorem C04_beta_int_pdf_documented : forall (a b : nat) (x : R), 0 < x < 1 ->
 Proof. exact beta_int_pdf_doc. Qed.
 Print Assumptions C04_beta_int_pdf_documented.
 
+(* ... and the Beta(a+1, b+1) density integrates to one over (0,1): int t^a (1-t)^b = a! b! / (a+b+1)! (by parts, induction) *)
+Theorem C04_beta_int_normalised : forall a b : nat, is_RInt (beta_int_pdf a b) 0 1 1 /\ beta_int_cdf1 a b 1 = 1.
+Proof. intros a b. split; [exact (beta_int_normalised a b) | exact (beta_int_cdf_at_1 a b)]. Qed.
+Print Assumptions C04_beta_int_normalised.
+
 Theorem C04_invgamma_cdf_derivative : forall (k : nat) (l sc x : R), l < x ->
   is_derive (invgamma_int_cdf1 k l sc) x (invgamma_int_pdf k l sc x).
 Proof. exact invgamma_int_cdf_derive. Qed.
 Print Assumptions C04_invgamma_cdf_derivative.
+
+(* Gamma with ANY real shape: the code calls scipy's regularised incomplete gamma function.  Under the named oracle law
+   "on x > 0 it differs between two points by the integral of the documented density" its derivative is that density
+   (the law itself is exercised per case by the oracle's quadrature; for integer shapes it is the theorem C04_gamma_cdf_closed_form) *)
+Theorem C04_gamma_cdf_gammainc_law : forall (G sh r : R) (cdf_code : R -> R), G <> 0 ->
+  (forall c x, 0 < c -> 0 < x -> cdf_code x - cdf_code c = RInt (gamma_pdf1 G sh r) c x) ->
+  forall x, 0 < x -> is_derive cdf_code x (gamma_pdf1 G sh r x).
+Proof. exact gamma_cdf_code_derive. Qed.
+Print Assumptions C04_gamma_cdf_gammainc_law.
+
+(* InverseGamma with integer shape is normalised: its cdf tends to 1 *)
+Theorem C04_invgamma_int_normalised : forall (k : nat) (l sc : R), is_lim (invgamma_int_cdf1 k l sc) p_infty 1.
+Proof. exact invgamma_int_normalised. Qed.
+Print Assumptions C04_invgamma_int_normalised.
 
 (* the formula the CODE evaluates for Normal.cdf, 0.5 (1 + erf((x-m)/(s sqrt 2))), equals the model's integral under the
    named oracle law  erf z = 2/sqrt(pi) int_0^z exp(-t^2) dt  (scipy.special.erf; erf is not defined in the installed libraries) *)
@@ -327,6 +346,16 @@ Theorem C04_symmetry_check_scale_refuted :
 Proof. exact symmetry_check_scale_refuted. Qed.
 Print Assumptions C04_symmetry_check_scale_refuted.
 
+(* REFINEMENT LINK between the executable list model (what the case files run: qdotq / qmv / qtr / qmm over Q, with their Qred
+   normalisations) and the matrix statement C04_gaussian_sqrtprec_quad of Props/C04_mc.v: for every well-shaped M and d,
+   |M d|^2 == d^T (M^T M) d holds for the list functions themselves, so the quadratic form the certificate checks for sqrtprec = M
+   is the one it checks for prec = M^T M *)
+Theorem C04_list_model_quad_refinement : forall (n : nat) (d : list Q) (M : list (list Q)),
+  length d = n -> List.Forall (fun r => length r = n) M ->
+  (qdotq (qmv M d) (qmv M d) == qdotq d (qmv (qmm n (qtr n M) M) d))%Q.
+Proof. intros n d M Hd HM. exact (qquad_sqrtprec_is_prec n d Hd M HM). Qed.
+Print Assumptions C04_list_model_quad_refinement.
+
 (* ---------- the un-normalised log-density differs from the normalised one by a constant in x ---------- *)
 Theorem C04_unnormalised_constant : forall (rank : nat) (logdet q1 q2 : R),
   gauss_canon rank logdet q1 - gauss_logupdf q1 = gauss_canon rank logdet q2 - gauss_logupdf q2.
@@ -389,6 +418,14 @@ Theorem C04_gmrf_rank_repaired : forall (order : nat) (b : bc_t) (twod : bool) (
 Proof. intros o b t d H1 H2 H3. split; [exact (gmrf_rank_v_fixed o b t d H1 H2 H3) | reflexivity]. Qed.
 Print Assumptions C04_gmrf_rank_repaired.
 
+(* GMRF above cuqi.config.MAX_DIM_INV (periodic / neumann): the code takes ln det(P + delta I), delta = 2^-26, which carries ln delta once
+   per null direction of P.  Dividing by delta^k (the proposed repair; model variant `true` of gmrf_large_detarg) shifts the value by
+   -(k/2) ln delta: the unrepaired log-density is too small by (k/2)(-ln delta) (about 9 per null direction), for every x *)
+Theorem C04_gmrf_large_shift : forall (rank : nat) (prec detarg delta : R) (k : nat) (dd : list R), 0 < detarg -> 0 < delta ->
+  gmrf_logpdf rank prec (detarg / delta ^ k) dd = gmrf_logpdf rank prec detarg dd - / 2 * INR k * ln delta.
+Proof. exact gmrf_large_shift. Qed.
+Print Assumptions C04_gmrf_large_shift.
+
 Theorem C04_gmrf_rank_refuted :
   gmrf_rank_code BNeumann 5 <> gmrf_true_rank 2 BNeumann false 5 /\ gmrf_rank_code BNeumann 5 <> gmrf_true_rank 0 BNeumann false 5.
 Proof. split; cbn; discriminate. Qed.
@@ -399,9 +436,9 @@ Print Assumptions C04_gmrf_rank_refuted.
    (mass of [mu-T, mu+T] is 1 - exp(-T/b), limit 1) and Cauchy (mass of [l-T, l+T] is (2/pi) atan(T/s), limit 1),
    each per coordinate (the multi-dimensional densities are products of these factors; Fubini is not formalised).
    Gamma with INTEGER shape is proved in full (C04_gamma_int_normalised).
-   Lognormal is reduced to Normal (C04_lognormal_mass,
+   Beta with INTEGER shapes is proved in full (C04_beta_int_normalised); Lognormal is reduced to Normal (C04_lognormal_mass,
    C04_lognormal_normalised_given_normal).
-   NOT proved: Normal/Gaussian, Gamma / Beta with non-integer shapes, InverseGamma (no Gaussian integral / Gamma-function theory in
+   NOT proved: Normal/Gaussian, Gamma / Beta / InverseGamma with non-integer shapes (no Gaussian integral / Gamma-function theory in
    the installed libraries), and SmoothedLaplace (whose documented density is in fact not normalised for beta > 0);
    for those the theorems above say "equals the documented formula" and the harness's oracle compares with
    independent references. *)
